@@ -113,6 +113,9 @@ def run_case(case, g, tier, res):
         gen.OBS[0] = obs
         gen.DRAW_FN[0] = gen.symbolic_draw(gendrive.block_bounds(g, A, N))
         rng = SymRng()
+        from symx import npshim
+        grng = SymRng()
+        npshim.GLOBAL_RANDOM_HOOK[0] = grng
         state0 = copy.deepcopy(core_mod._GLOBAL_RNG.bit_generator.state)
         dA0 = digest(g, A)
         hist = []
@@ -134,7 +137,8 @@ def run_case(case, g, tier, res):
         c.prove(all(r is rng for (_, _, r) in obs.draws) and len(obs.draws) == len(set(id(d) for (d, _, _) in obs.draws)),
                 "every draw uses the supplied generator, once per block", detail("a target mass is drawn from another generator than the supplied one (or twice)"))
         c.prove(tree_eq(digest(g, A)[0], dA0[0]) and digest(g, A)[1:] == dA0[1:], "parsed object unchanged by the operation", detail("generate changed the parsed object"))
-        c.prove(core_mod._GLOBAL_RNG.bit_generator.state == state0, "global generator untouched", detail("generate with a supplied generator consumed the global generator"))
+        c.prove(core_mod._GLOBAL_RNG.bit_generator.state == state0 and len(grng.calls) + len(grng.other_calls) == 0, "global generator untouched",
+                detail("generate with a supplied generator consumed the global generator"))
         picks = [r.index for r in rng.calls]
         targets = [t for (_, t, _) in obs.draws]
         # ---- history on B / third instance
